@@ -9,6 +9,7 @@ CONSTANTS
   MaxConf = 1
   Buf = 1
   Fixes = {}
+  ColorOnly = FALSE
   ReplayLen = 0
 INVARIANTS RowsOnceInOrder Lag PrefixStable Boundary Replay
 PROPERTY NeverRevised
